@@ -64,7 +64,8 @@ Definition scen_cmp (sc : scen) : Z :=
 (* side conditions of the whole-run conservation theorem (Proofs/SimRunP.v run_conserves_b), evaluated per scenario:
    bit 0 = every placement package found its order as created, bit 1 = the scenario's books and script are in the domain of the
    conservation theorem (no removed runner, no reconciled starting price, positive ladders), bit 2 = side condition of the
-   acknowledgement-time theorem C07_run_ack_after_latency (must hold on EVERY scenario) *)
+   acknowledgement-time theorem C07_run_ack_after_latency (must hold on EVERY scenario), bit 3 = side condition of the names theorem
+   C13_order_names_unique_in_every_reachable_state: every (market, name) used once, names below 1000 (must hold on EVERY scenario) *)
 Definition scen_hyp (sc : scen) : Z :=
   let scr := script_of (sc_script sc) in
   let g := run_guard_b tb_up (sc_cfg sc) (sc_nstrat sc) scr (sc_events sc) (sim0 (sc_markets sc))
@@ -72,4 +73,5 @@ Definition scen_hyp (sc : scen) : Z :=
   let d := forallb (event_b scr (sc_nstrat sc)) (sc_events sc) in
   let a := run_ack_guard_b tb_up (sc_cfg sc) (sc_nstrat sc) scr (sc_events sc) (sim0 (sc_markets sc))
            && run_ack_guard_b tb_down (sc_cfg sc) (sc_nstrat sc) scr (sc_events sc) (sim0 (sc_markets sc)) in
-  (if g then 1 else 0) + (if d then 2 else 0) + (if a then 4 else 0).
+  let k := keys_ok_b scr (sc_nstrat sc) (sc_events sc) in
+  (if g then 1 else 0) + (if d then 2 else 0) + (if a then 4 else 0) + (if k then 8 else 0).
